@@ -109,6 +109,8 @@ class WrapSpec:
     desugar_try: List[str] = field(default_factory=list)     # rule R10 inside the fragments
     substs: List[Tuple[str, str]] = field(default_factory=list)
     lifts: List[Lift] = field(default_factory=list)
+    foreach: List[Tuple[str, int]] = field(default_factory=list)          # (fragment, ordinal of the `for` inside it): rule R7 / R23
+    frag_loops: Dict[str, Dict[int, Dict[str, List[str]]]] = field(default_factory=dict)   # fragment -> loop ordinal -> entries
 
     @property
     def qual(self) -> str:
@@ -243,6 +245,22 @@ def parse(path: str) -> UnitSpec:
                 cur.no_canary = True
             elif head == "desugar_try":
                 cur.desugar_try = rest.split()
+            elif head == "foreach":
+                a, b = rest.split()
+                cur.foreach.append((a, int(b)))
+            elif head == "loop":
+                # loop FRAG K (ghost|invariant|decreases|body_start|body_end|after) TEXT  -- as for fn blocks, inside one fragment
+                m = re.match(r"^(\w+)\s+(\d+)\s+(ghost|invariant|decreases|body_start|body_end|after)\s+(.*)$", rest, re.S)
+                if not m:
+                    raise SpecError(f"{path}:{ln}: bad wrap loop entry")
+                val = m.group(4).strip()
+                lm = _label_re.match(val) if m.group(3) == "invariant" else None
+                if lm:
+                    lab = lm.group(1)
+                    if "." not in lab or not lab.startswith("C"):
+                        lab = f"{u.prop}.{lab}"
+                    val = f"[{lab}] {lm.group(2).strip()}"
+                cur.frag_loops.setdefault(m.group(1), {}).setdefault(int(m.group(2)), {}).setdefault(m.group(3), []).append(val)
             elif head == "subst":
                 a, _, b = rest.partition("=>")
                 cur.substs.append((a.strip(), b.strip()))
